@@ -3,10 +3,14 @@ C06 — variant operators: arithmetic of the first operand's type, Null propagat
 mutually consistent comparisons, list semantics of membership and indexing, and
 "an undefined operation yields an error rather than a wrong value or a crash".
 
-Float facts are stated as "the result is the host operation applied to the operands".
+Float *arithmetic* facts are stated as "the result is the host operation applied to the operands".
+Float *comparisons* are the bit-level IEEE comparisons of `Verif/Model/FloatCmp.lean` on `toBits`
+(`fLt`, `fEq`, `fLe`, `fLt32`, …), so the consistency laws of section 6 hold for floats too,
+NaN included (`Verif/Lemmas/FloatCmpLemmas.lean`).
 -/
 import Verif.Model.Value
 import Verif.Lemmas.ValueLemmas
+import Verif.Lemmas.FloatCmpLemmas
 namespace Verif
 
 /-! ## 1. result or error, never a crash -/
@@ -248,7 +252,8 @@ theorem C06_host_arithmetic :
     | (intro x y h; simp [arith, arithCore, h])
     | (intro x y; cases x <;> cases y <;> rfl)
 
-/-- comparisons on each type (the value inside `.bool` is the host comparison) -/
+/-- comparisons on each type (the value inside `.bool` is the host comparison; for Float / Double
+the bit-level IEEE comparison of the operands' bit patterns) -/
 theorem C06_host_comparisons :
     (∀ x y : Int64, arith .equal (.int x) (.int y) = .ok (.bool (x == y)) ∧
       arith .notEqual (.int x) (.int y) = .ok (.bool (x != y)) ∧
@@ -262,18 +267,18 @@ theorem C06_host_comparisons :
       arith .more (.long x) (.long y) = .ok (.bool (x > y)) ∧
       arith .lessEqual (.long x) (.long y) = .ok (.bool (x ≤ y)) ∧
       arith .moreEqual (.long x) (.long y) = .ok (.bool (x ≥ y))) ∧
-    (∀ x y : Float32, arith .equal (.float x) (.float y) = .ok (.bool (x == y)) ∧
-      arith .notEqual (.float x) (.float y) = .ok (.bool (x != y)) ∧
-      arith .less (.float x) (.float y) = .ok (.bool (x < y)) ∧
-      arith .more (.float x) (.float y) = .ok (.bool (x > y)) ∧
-      arith .lessEqual (.float x) (.float y) = .ok (.bool (x ≤ y)) ∧
-      arith .moreEqual (.float x) (.float y) = .ok (.bool (x ≥ y))) ∧
-    (∀ x y : Float, arith .equal (.double x) (.double y) = .ok (.bool (x == y)) ∧
-      arith .notEqual (.double x) (.double y) = .ok (.bool (x != y)) ∧
-      arith .less (.double x) (.double y) = .ok (.bool (x < y)) ∧
-      arith .more (.double x) (.double y) = .ok (.bool (x > y)) ∧
-      arith .lessEqual (.double x) (.double y) = .ok (.bool (x ≤ y)) ∧
-      arith .moreEqual (.double x) (.double y) = .ok (.bool (x ≥ y))) ∧
+    (∀ x y : Float32, arith .equal (.float x) (.float y) = .ok (.bool (f32Eq x.toBits y.toBits)) ∧
+      arith .notEqual (.float x) (.float y) = .ok (.bool (!f32Eq x.toBits y.toBits)) ∧
+      arith .less (.float x) (.float y) = .ok (.bool (f32Lt x.toBits y.toBits)) ∧
+      arith .more (.float x) (.float y) = .ok (.bool (f32Lt y.toBits x.toBits)) ∧
+      arith .lessEqual (.float x) (.float y) = .ok (.bool (f32Le x.toBits y.toBits)) ∧
+      arith .moreEqual (.float x) (.float y) = .ok (.bool (f32Le y.toBits x.toBits))) ∧
+    (∀ x y : Float, arith .equal (.double x) (.double y) = .ok (.bool (f64Eq x.toBits y.toBits)) ∧
+      arith .notEqual (.double x) (.double y) = .ok (.bool (!f64Eq x.toBits y.toBits)) ∧
+      arith .less (.double x) (.double y) = .ok (.bool (f64Lt x.toBits y.toBits)) ∧
+      arith .more (.double x) (.double y) = .ok (.bool (f64Lt y.toBits x.toBits)) ∧
+      arith .lessEqual (.double x) (.double y) = .ok (.bool (f64Le x.toBits y.toBits)) ∧
+      arith .moreEqual (.double x) (.double y) = .ok (.bool (f64Le y.toBits x.toBits))) ∧
     (∀ x y : Int64, arith .equal (.timeSpan x) (.timeSpan y) = .ok (.bool (x == y)) ∧
       arith .notEqual (.timeSpan x) (.timeSpan y) = .ok (.bool (x != y)) ∧
       arith .less (.timeSpan x) (.timeSpan y) = .ok (.bool (x < y)) ∧
@@ -336,26 +341,35 @@ types differ or the type has no order) -/
 theorem C06_more_is_flipped_less (a b : V) : arithCore .more a b = arithCore .less b a := by
   cases a <;> cases b <;> rfl
 
-/-- `a <= b` iff `a < b` or `a = b`, on every non-float type that has an order -/
+/-- `a <= b` iff `a < b` or `a = b`, on EVERY type that has an order (Float / Double included:
+with a NaN operand all three comparisons are false) -/
 theorem C06_lessEqual_iff (a b : V) (lt eq : Bool)
-    (hf : a.typ ≠ .float) (hd : a.typ ≠ .double)
     (hlt : arithCore .less a b = .ok (.bool lt)) (heq : arithCore .equal a b = .ok (.bool eq)) :
     arithCore .lessEqual a b = .ok (.bool (lt || eq)) := by
-  cases a <;> cases b <;> simp [arithCore, opErr, V.typ] at hlt heq hf hd
+  cases a <;> cases b <;> simp [arithCore, opErr] at hlt heq
   case int.int x y => subst hlt heq; exact congrArg (fun b => R.ok (.bool b)) (Int64.decide_le_eq x y)
   case long.long x y => subst hlt heq; exact congrArg (fun b => R.ok (.bool b)) (Int64.decide_le_eq x y)
+  case float.float x y => subst hlt heq; exact congrArg (fun b => R.ok (.bool b)) (fLe32_iff_lt_or_eq x y)
+  case double.double x y => subst hlt heq; exact congrArg (fun b => R.ok (.bool b)) (fLe_iff_lt_or_eq x y)
   case timeSpan.timeSpan x y => subst hlt heq; exact congrArg (fun b => R.ok (.bool b)) (Int64.decide_le_eq x y)
   case str.str x y => subst hlt heq; exact congrArg (fun b => R.ok (.bool b)) (not_strLt_flip x y)
   case dateTime.dateTime s1 n1 s2 n2 => subst hlt heq; rfl
 
-/-- `a >= b` iff `a > b` or `a = b`, on every non-float type that has an order -/
+/-- `a >= b` iff `a > b` or `a = b`, on EVERY type that has an order (Float / Double included) -/
 theorem C06_moreEqual_iff (a b : V) (gt eq : Bool)
-    (hf : a.typ ≠ .float) (hd : a.typ ≠ .double)
     (hgt : arithCore .more a b = .ok (.bool gt)) (heq : arithCore .equal a b = .ok (.bool eq)) :
     arithCore .moreEqual a b = .ok (.bool (gt || eq)) := by
-  cases a <;> cases b <;> simp [arithCore, opErr, V.typ] at hgt heq hf hd
+  cases a <;> cases b <;> simp [arithCore, opErr] at hgt heq
   case int.int x y => subst hgt heq; exact congrArg (fun b => R.ok (.bool b)) (Int64.decide_ge_eq x y)
   case long.long x y => subst hgt heq; exact congrArg (fun b => R.ok (.bool b)) (Int64.decide_ge_eq x y)
+  case float.float x y =>
+    subst hgt heq
+    refine congrArg (fun b => R.ok (.bool b)) ?_
+    rw [fEq32_comm x y]; exact fLe32_iff_lt_or_eq y x
+  case double.double x y =>
+    subst hgt heq
+    refine congrArg (fun b => R.ok (.bool b)) ?_
+    rw [fEq_comm x y]; exact fLe_iff_lt_or_eq y x
   case timeSpan.timeSpan x y => subst hgt heq; exact congrArg (fun b => R.ok (.bool b)) (Int64.decide_ge_eq x y)
   case str.str x y =>
     subst hgt heq
@@ -366,18 +380,40 @@ theorem C06_moreEqual_iff (a b : V) (gt eq : Bool)
     rw [this, hc]
   case dateTime.dateTime s1 n1 s2 n2 => subst hgt heq; rfl
 
-/-- `a <= b` is `not (b < a)` (totality), on every non-float ordered type -/
+/-- the former statements (with the float exclusions) are corollaries -/
+theorem C06_lessEqual_iff_nonfloat (a b : V) (lt eq : Bool)
+    (_hf : a.typ ≠ .float) (_hd : a.typ ≠ .double)
+    (hlt : arithCore .less a b = .ok (.bool lt)) (heq : arithCore .equal a b = .ok (.bool eq)) :
+    arithCore .lessEqual a b = .ok (.bool (lt || eq)) := C06_lessEqual_iff a b lt eq hlt heq
+
+theorem C06_moreEqual_iff_nonfloat (a b : V) (gt eq : Bool)
+    (_hf : a.typ ≠ .float) (_hd : a.typ ≠ .double)
+    (hgt : arithCore .more a b = .ok (.bool gt)) (heq : arithCore .equal a b = .ok (.bool eq)) :
+    arithCore .moreEqual a b = .ok (.bool (gt || eq)) := C06_moreEqual_iff a b gt eq hgt heq
+
+/-- "this value is a Float / Double NaN" (decided on the bit pattern) -/
+def V.isNaN : V → Bool
+  | .float x => fIsNaN32 x
+  | .double x => fIsNaN x
+  | _ => false
+
+/-- `a <= b` is `not (b < a)` (totality), on every ordered type; for Float / Double provided
+neither operand is a NaN (with a NaN both `<=` and `>` are false: `C06_float_nan_unordered`) -/
 theorem C06_lessEqual_is_not_more (a b : V) (gt : Bool)
-    (hf : a.typ ≠ .float) (hd : a.typ ≠ .double)
+    (hna : a.isNaN = false) (hnb : b.isNaN = false)
     (hgt : arithCore .more a b = .ok (.bool gt)) :
     arithCore .lessEqual a b = .ok (.bool (!gt)) := by
-  cases a <;> cases b <;> simp [arithCore, opErr, V.typ] at hgt hf hd
+  cases a <;> cases b <;> simp [arithCore, opErr, V.isNaN] at hgt hna hnb
   case int.int x y =>
     subst hgt; refine congrArg (fun b => R.ok (.bool b)) ?_
     rw [Bool.eq_iff_iff]; simp [Int64.le_iff_toInt_le, Int64.lt_iff_toInt_lt]
   case long.long x y =>
     subst hgt; refine congrArg (fun b => R.ok (.bool b)) ?_
     rw [Bool.eq_iff_iff]; simp [Int64.le_iff_toInt_le, Int64.lt_iff_toInt_lt]
+  case float.float x y =>
+    subst hgt; exact congrArg (fun b => R.ok (.bool b)) (fLe32_eq_not_lt x y hna hnb)
+  case double.double x y =>
+    subst hgt; exact congrArg (fun b => R.ok (.bool b)) (fLe_eq_not_lt x y hna hnb)
   case timeSpan.timeSpan x y =>
     subst hgt; refine congrArg (fun b => R.ok (.bool b)) ?_
     rw [Bool.eq_iff_iff]; simp [Int64.le_iff_toInt_le, Int64.lt_iff_toInt_lt]
@@ -385,11 +421,94 @@ theorem C06_lessEqual_is_not_more (a b : V) (gt : Bool)
   case dateTime.dateTime s1 n1 s2 n2 =>
     subst hgt; exact congrArg (fun b => R.ok (.bool b)) (dtLe_eq_not_flip s1 n1 s2 n2)
 
-/-- `a <> b` iff not `a = b`, on every type with an equality (floats included: the host's
-`!=` is by definition the negation of the host's `==`) -/
+/-- the former statement (non-float types) is a corollary -/
+theorem C06_lessEqual_is_not_more_nonfloat (a b : V) (gt : Bool)
+    (hf : a.typ ≠ .float) (hd : a.typ ≠ .double)
+    (hgt : arithCore .more a b = .ok (.bool gt)) :
+    arithCore .lessEqual a b = .ok (.bool (!gt)) := by
+  refine C06_lessEqual_is_not_more a b gt ?_ ?_ hgt
+  all_goals (cases a <;> cases b <;> simp [arithCore, opErr, V.typ] at hgt hf hd <;> rfl)
+
+/-- `a <> b` iff not `a = b`, on every type with an equality (floats included) -/
 theorem C06_notEqual_is_not_equal (a b : V) (e : Bool)
     (h : arithCore .equal a b = .ok (.bool e)) : arithCore .notEqual a b = .ok (.bool (!e)) := by
   cases a <;> cases b <;> simp [arithCore, opErr] at h <;> subst h <;> rfl
+
+/-- equality is symmetric on every type with an equality (floats included) -/
+theorem C06_equal_symm (a b : V) : arithCore .equal a b = arithCore .equal b a := by
+  cases a <;> cases b <;> simp [arithCore, opErr]
+  case float.float x y => exact fEq32_comm x y
+  case double.double x y => exact fEq_comm x y
+  case dateTime.dateTime s1 n1 s2 n2 =>
+    simp only [dtEq]; rw [Bool.eq_iff_iff]; simp; constructor <;> (rintro ⟨h1, h2⟩; exact ⟨h1.symm, h2.symm⟩)
+  all_goals (rw [Bool.eq_iff_iff]; simp only [beq_iff_eq]; exact eq_comm)
+
+/-- `<` is asymmetric on every ordered type (floats included) -/
+theorem C06_less_asymm (a b : V)
+    (h : arithCore .less a b = .ok (.bool true)) : arithCore .less b a = .ok (.bool false) := by
+  cases a <;> cases b <;> simp [arithCore, opErr] at h ⊢
+  case int.int x y => simp only [Int64.lt_iff_toInt_lt, Int64.le_iff_toInt_le] at *; omega
+  case long.long x y => simp only [Int64.lt_iff_toInt_lt, Int64.le_iff_toInt_le] at *; omega
+  case float.float x y => exact fLt32_asymm x y h
+  case double.double x y => exact fLt_asymm x y h
+  case timeSpan.timeSpan x y => simp only [Int64.lt_iff_toInt_lt, Int64.le_iff_toInt_le] at *; omega
+  case str.str x y =>
+    have := not_strLt_flip x y
+    rw [h] at this; simpa using this
+  case dateTime.dateTime s1 n1 s2 n2 =>
+    simp only [dtLt, Bool.or_eq_true, Bool.and_eq_true, decide_eq_true_eq, beq_iff_eq] at h
+    simp only [dtLt, Bool.or_eq_false_iff, Bool.and_eq_false_imp, decide_eq_false_iff_not, beq_iff_eq]
+    omega
+
+/-- `<` is transitive on Float / Double (and so, by `C06_more_is_flipped_less`, is `>`) -/
+theorem C06_float_less_trans (a b c : V) (hf : a.typ = .float ∨ a.typ = .double)
+    (h1 : arithCore .less a b = .ok (.bool true)) (h2 : arithCore .less b c = .ok (.bool true)) :
+    arithCore .less a c = .ok (.bool true) := by
+  cases a <;> simp [V.typ] at hf <;> cases b <;> simp [arithCore, opErr] at h1 <;>
+    cases c <;> simp [arithCore, opErr] at h2 ⊢
+  case float.float.float x y z => exact fLt32_trans x y z h1 h2
+  case double.double.double x y z => exact fLt_trans x y z h1 h2
+
+/-- a NaN operand (of type Float / Double, on either side) is unordered: the four order
+comparisons and equality are `false`, inequality is `true` -/
+theorem C06_float_nan_unordered (a b : V) (ht : a.typ = b.typ)
+    (hf : a.typ = .float ∨ a.typ = .double) (hn : a.isNaN = true ∨ b.isNaN = true) :
+    arithCore .less a b = .ok (.bool false) ∧ arithCore .more a b = .ok (.bool false) ∧
+    arithCore .lessEqual a b = .ok (.bool false) ∧ arithCore .moreEqual a b = .ok (.bool false) ∧
+    arithCore .equal a b = .ok (.bool false) ∧ arithCore .notEqual a b = .ok (.bool true) := by
+  cases a <;> simp [V.typ] at hf <;> cases b <;> simp [V.typ] at ht
+  case float.float x y =>
+    simp only [V.isNaN] at hn
+    rcases hn with hn | hn
+    · obtain ⟨h1, h2, h3, _, h5, h6⟩ := fNaN32_unordered x y hn
+      simp [arithCore, h1, h2, h3, h5, h6]
+    · obtain ⟨h1, h2, _, h4, h5, h6⟩ := fNaN32_unordered y x hn
+      simp [arithCore, h1, h2, h4, h5, h6]
+  case double.double x y =>
+    simp only [V.isNaN] at hn
+    rcases hn with hn | hn
+    · obtain ⟨h1, h2, h3, _, h5, h6⟩ := fNaN_unordered x y hn
+      simp [arithCore, h1, h2, h3, h5, h6]
+    · obtain ⟨h1, h2, _, h4, h5, h6⟩ := fNaN_unordered y x hn
+      simp [arithCore, h1, h2, h4, h5, h6]
+
+/-- trichotomy on Float / Double without NaN: exactly one of `<`, `=`, `>` holds -/
+theorem C06_float_trichotomy (a b : V) (ht : a.typ = b.typ)
+    (hf : a.typ = .float ∨ a.typ = .double) (hna : a.isNaN = false) (hnb : b.isNaN = false) :
+    ∃ lt eq gt : Bool, arithCore .less a b = .ok (.bool lt) ∧ arithCore .equal a b = .ok (.bool eq) ∧
+      arithCore .more a b = .ok (.bool gt) ∧
+      ((lt = true ∧ eq = false ∧ gt = false) ∨ (lt = false ∧ eq = true ∧ gt = false) ∨
+       (lt = false ∧ eq = false ∧ gt = true)) := by
+  cases a <;> simp [V.typ] at hf <;> cases b <;> simp [V.typ] at ht
+  case float.float x y => exact ⟨_, _, _, rfl, rfl, rfl, f32f_trichotomy x y hna hnb⟩
+  case double.double x y => exact ⟨_, _, _, rfl, rfl, rfl, f_trichotomy x y hna hnb⟩
+
+/-- a Float / Double equals itself iff it is not a NaN -/
+theorem C06_float_equal_self (a : V) (hf : a.typ = .float ∨ a.typ = .double) :
+    arithCore .equal a a = .ok (.bool (!a.isNaN)) := by
+  cases a <;> simp [V.typ] at hf
+  case float x => exact congrArg (fun b => R.ok (.bool b)) (fEq32_self x)
+  case double x => exact congrArg (fun b => R.ok (.bool b)) (fEq_self x)
 
 
 /-! ## 7. undefined operations are errors -/
